@@ -688,7 +688,9 @@ def verifyMulti (tables : List (Air × ProofWithPis)) (ctls : List CtlSpec) (c :
   for ((a, pp), i) in tables.zipIdx do
     let some (totalHelpers, _, byCtl) := numCtlHelpersZsAll ctls i c.numChallenges a.degree
       | return .panic "num_ctl_helpers_zs_all"
-    let ctlVars ← match ctlVarsFromProof i pp.proof ctls ctlChallenges 0 totalHelpers byCtl with
+    -- the table's own lookup helper columns precede the CTL columns among the auxiliary polynomials
+    let nlc := (numLookupHelperColumns a c).getD 0
+    let ctlVars ← match ctlVarsFromProof i pp.proof ctls ctlChallenges nlc totalHelpers byCtl with
       | .error e => return .panic e
       | .ok v => pure v
     match getChallengesFrom s0 a c pp none (some ctlChallenges) (some ctlVars) true with
